@@ -81,7 +81,7 @@ def run(tier, replay=None):
         progs += progen.depth_sweep(depths=(0, 17, 18, 24) if thorough else (0, 17), groups=["control", "memory"], rng_seed=seed())
         progs += [{"src": s, "kernel": k, "inputs": list(range(1, 25)), "class": "pos:" + nm} for nm, s, k in POS]
         progs += [{"src": KPOS[1], "kernel": KPOS[2], "inputs": [1, 2, 3], "class": "pos:" + KPOS[0]}]
-        progs += vmtrace.callee_shape_programs()
+        progs += vmtrace.callee_shape_programs() + vmtrace.ctx_switch_programs()
         progs += [{"src": s, "kernel": None, "inputs": [], "adv": adv, "class": "neg:" + nm} for nm, s, adv in NEG]
         # a syscall cannot create a new context, however the call / syscall is reached (execution_contexts.md)
         progs += [{"src": s, "kernel": k, "inputs": [], "adv": [], "class": "neg:" + nm} for nm, s, k in KNEG]
